@@ -440,8 +440,9 @@ void World::checkPayloads(int i, const Op& op, const Obs& before) {
 			if (!h.guards.empty() || !before.alive || t.origin < 0 || !h.shape->isRegion(t.origin)) return false;
 			const int reg = h.shape->st[size_t(t.origin)].region;
 			if (reg < 0 || reg >= int(before.plans.size())) return false;
-			for (auto& tk : before.plans[size_t(reg)]) if (tk.dest == t.dest && tk.kind == t.kind && tk.hasPayload == t.hasPayload && (!t.hasPayload || tk.payload == t.payload)) return true;
-			for (auto& e : h.trace) if (e.k == EV_PLAN_EDIT && (e.a & 0xFF) == A_PLAN_APPEND && int(e.c & 0xFFFF) == t.dest && int((e.a >> 16) & 0xFF) == t.kind && e.hasP == t.hasPayload && (!t.hasPayload || e.p == t.payload)) return true;
+			// (the kind is not compared: the library issues every task as a plain change -- documented finding F-C06-2, decided by C06)
+			for (auto& tk : before.plans[size_t(reg)]) if (tk.dest == t.dest && tk.hasPayload == t.hasPayload && (!t.hasPayload || tk.payload == t.payload)) return true;
+			for (auto& e : h.trace) if (e.k == EV_PLAN_EDIT && (e.a & 0xFF) == A_PLAN_APPEND && int(e.c & 0xFFFF) == t.dest && e.hasP == t.hasPayload && (!t.hasPayload || e.p == t.payload)) return true;
 			return false;
 		};
 		size_t j = 0;
